@@ -1920,9 +1920,13 @@ class Runner:
         ob = impl_observe(schema)
         self.cases.append((origin, info, D, ob, w))
 
-    def add_abstract(self, S, label, rng, sdl=True, prog=True):
-        """Build S programmatically and from SDL (with and without SDL pre-validation)."""
+    def add_abstract(self, S, label, rng, sdl=True, prog=True, base=None):
+        """Build S programmatically and from SDL (with and without SDL pre-validation).
+        base = (abstract, built and already VALIDATED valid schema): S is then also constructed from
+        the base's to_kwargs() with the schema parts replaced (history-dependent construction), and
+        a sample is passed through lexicographic_sort_schema."""
         from graphql import GraphQLError, build_schema
+        from graphql.type import GraphQLSchema
         ck = self.ck
         if prog:
             for mode in ((None,) if rng.random() < 0.7 else ("literal", "value")):
@@ -1933,6 +1937,22 @@ class Runner:
                     ck.count(f"ncp:{str(e)[:50]}")
                     continue
                 self.add_built("programmatic", {"label": label, "abstract": S, "force_mode": mode}, sch, S)
+                if base is not None:
+                    try:
+                        sch2 = build_prog(S, force_mode=mode)
+                        kw = dict(base[1].to_kwargs())
+                        kw.update(query=sch2.query_type, mutation=sch2.mutation_type,
+                                  subscription=sch2.subscription_type,
+                                  types=tuple(sch2.type_map.values()), directives=sch2.directives)
+                        re_ = GraphQLSchema(**kw)
+                    except (TypeError, GraphQLError):
+                        ck.count("not_constructible_from_kwargs")
+                    else:
+                        self.add_built("from-validated-kwargs",
+                                       {"label": label, "abstract": S, "force_mode": mode,
+                                        "base_abstract": base[0], "via": "to_kwargs"}, re_, S)
+                    if rng.random() < 0.15:
+                        self.add_sorted(sch, {"label": label, "abstract": S, "force_mode": mode, "via": "sort"})
         if sdl:
             ext = rng.random() < 0.5
             text = to_sdl(S, rng if ext else None)
@@ -1954,6 +1974,85 @@ class Runner:
                     continue
                 self.add_built("sdl" if av else "sdl-prevalidated",
                                {"label": label, "sdl": text, "assume_valid_sdl": av}, sch, S)
+
+    def add_sorted(self, sch, info):
+        """lexicographic_sort_schema of an already validated schema (it goes through to_kwargs)."""
+        from graphql.type import validate_schema
+        from graphql.utilities import lexicographic_sort_schema
+        try:
+            validate_schema(sch)
+        except Exception:  # noqa: BLE001  reported for the schema itself
+            return
+        try:
+            srt = lexicographic_sort_schema(sch)
+        except Exception as e:  # noqa: BLE001  a transformation, not validation: counted only
+            self.ck.count(f"sort_failed:{type(e).__name__}")
+            return
+        self.add_built("sorted-after-validation", info, srt)
+
+    def add_history(self, S, base, rng):
+        """Schemas derived from a validated valid schema: edited to_kwargs() and extend_schema."""
+        from graphql import GraphQLError, build_schema, extend_schema, parse
+        from graphql.language import DirectiveLocation
+        from graphql.type import GraphQLDirective, GraphQLSchema, validate_schema
+        ck = self.ck
+        kinds = {t["name"]: t["kind"] for t in S["types"]}
+        tm = base.type_map
+        edits = [("same", {}), ("no-query", {"query": None}),
+                 ("dup-root", {"mutation": base.query_type}),
+                 ("dir-no-locations", {"directives": tuple(base.directives) + (GraphQLDirective("zd", []),)})]
+        for n, k in kinds.items():
+            if k in ("input", "enum", "union", "interface", "scalar"):
+                edits.append((f"root-{k}", {rng.choice(["query", "mutation", "subscription"]): tm[n]}))
+        for lab, ed in edits:
+            try:
+                re_ = GraphQLSchema(**{**base.to_kwargs(), **ed})
+            except (TypeError, GraphQLError):
+                ck.count("not_constructible_from_kwargs")
+                continue
+            self.add_built("from-validated-kwargs", {"label": "kwargs:" + lab, "base_abstract": S,
+                                                     "via": "to_kwargs-edit", "edit": lab}, re_)
+        self.add_sorted(base, {"label": "valid", "abstract": S, "via": "sort"})
+        text = to_sdl(S)
+        if text is None:
+            return
+        try:
+            b2 = build_schema(text)
+            if validate_schema(b2) != []:
+                return
+        except (TypeError, GraphQLError):
+            return
+        objs = [n for n, k in kinds.items() if k == "object"]
+        ins = [n for n, k in kinds.items() if k == "input"]
+        ifs = [n for n, k in kinds.items() if k == "interface"]
+        uns = [n for n, k in kinds.items() if k == "union"]
+        o = rng.choice(objs)
+        docs = [f"extend type {o} {{ zok: Int }}", f"extend type {o} {{ zq(a: {o} = 1): Int }}",
+                f"extend type {o} {{ __z: Int }}", f"type ZNew implements {o} {{ a: Int }}", "type ZEmpty",
+                f"extend type {o} {{ zr(a: Int! @deprecated): Int }}"]
+        if ins:
+            i = rng.choice(ins)
+            docs += [f"extend type {o} {{ zbad: {i} }}", f"extend input {i} {{ zc: {i}! }}",
+                     f"extend input {i} {{ zd: {i} = {{}} }}"]
+        if ifs:
+            docs.append(f"type ZImp implements {rng.choice(ifs)} {{ zz: Int }}")
+        if uns:
+            docs.append(f"extend union {rng.choice(uns)} = Int")
+        if S.get("mutation") is None and "Mutation" not in kinds:
+            docs.append(f"extend schema {{ mutation: {S['query']} }}")
+        for doc in docs:
+            for av in (False, True):
+                try:
+                    ex = extend_schema(b2, parse(doc), assume_valid_sdl=av)
+                except (TypeError, GraphQLError):
+                    ck.count("extension_rejected")
+                    continue
+                except Exception as e:  # noqa: BLE001
+                    ck.count(f"extend_schema_raised:{type(e).__name__}")
+                    continue
+                self.add_built("extended-after-validation",
+                               {"label": "extend", "sdl": text, "extension": doc, "assume_valid_sdl": av,
+                                "via": "extend_schema"}, ex)
 
     def group(self, g, size, key, what, replay):
         cur = self.groups.get(g)
@@ -2069,6 +2168,7 @@ CORPUS_BUILTIN = [
 
 def run(tier):
     from graphql import GraphQLError, build_schema
+    from graphql.type import validate_schema
 
     ck = Check("C20", tier)
     ck.assumptions += ASSUMPTIONS
@@ -2089,7 +2189,11 @@ def run(tier):
                "programmatically and from SDL with and without SDL pre-validation; every mutation operator "
                f"({len(MUTATIONS)} violating + {len(BENIGN)} validity-preserving) applied at one random site of every base schema and at "
                f"every site (<= 12 per operator) of the first {n_allsites} base schemas, plus {n_double} sampled operator pairs per base; {n_raw} grammar-random "
-               "ill-kinded schemas (any reference may name any type) built three ways; corpus first. Compared per built schema: "
+               "ill-kinded schemas (any reference may name any type) built three ways; corpus first. History-dependent construction: every "
+               "base schema is validated first, then every mutant is also built as GraphQLSchema(**{**base.to_kwargs(), mutated parts}), "
+               "the base's kwargs are edited directly (no query, duplicate root, wrong-kind root, location-less directive), violating "
+               "documents are applied with extend_schema to the validated base, and a sample goes through lexicographic_sort_schema. "
+               "Compared per built schema: "
                "validate_schema raises?, emptiness, set of rule kinds, graphql_sync response. non-trivial = the rule checker "
                "reports at least one kind, or the schema has more than 6 types")
 
@@ -2107,6 +2211,17 @@ def run(tier):
     for i in range(n_base):
         S = ValidGen(r, big=(i % 3 == 0)).schema()
         rn.add_abstract(S, "valid", r)
+        # a validated valid base: mutants are ALSO constructed from its to_kwargs()
+        base = None
+        try:
+            bsch = build_prog(S)
+            if validate_schema(bsch) == []:
+                base = (S, bsch)
+                rn.add_history(S, bsch, r)
+            else:
+                ck.count("base_not_valid_by_implementation")
+        except Exception:  # noqa: BLE001  reported through the plain build above
+            ck.count("base_not_validated")
         all_sites = i < n_allsites
         for mu in MUTATIONS + BENIGN:
             first = 0
@@ -2122,7 +2237,7 @@ def run(tier):
                 else:
                     ck.count(f"mut:{mu.__name__[2:]}")
                     lab = mu.__name__[2:] + (":benign" if mu in BENIGN else "")
-                    rn.add_abstract(S2, lab, r, sdl=(i % 2 == 0), prog=True)
+                    rn.add_abstract(S2, lab, r, sdl=(i % 2 == 0), prog=True, base=base)
                 first += 1
                 if not all_sites or sr.options is None or first >= min(sr.options, 12):
                     break
@@ -2137,7 +2252,7 @@ def run(tier):
                 ck.count("mutation_not_applicable")
                 continue
             ck.count("double_mutants")
-            rn.add_abstract(S2, m1.__name__[2:] + "+" + m2.__name__[2:], r, sdl=r.random() < 0.5)
+            rn.add_abstract(S2, m1.__name__[2:] + "+" + m2.__name__[2:], r, sdl=r.random() < 0.5, base=base)
     for i in range(n_raw):
         S = random_raw(r)
         rn.add_abstract(S, "grammar-random", r, sdl=True, prog=(i % 3 == 0))
